@@ -47,6 +47,8 @@ pub enum Step {
         #[serde(default)]
         arg: u64,
     },
+    /// Bands written directly in format 0.6 by the harness (state injection for C08).
+    InjectBands(Vec<InjBand>),
     /// Edits to the alternative source tree (two racing backups of different sources).
     EditAlt(Vec<EditOp>),
     /// Concurrent invocations under a schedule.
@@ -54,6 +56,56 @@ pub enum Step {
         actors: Vec<crate::world::ActorSpec>,
         schedule: crate::sim::Schedule,
     },
+}
+
+#[derive(Clone, Debug, PartialEq, Serialize, Deserialize)]
+pub struct InjEntry {
+    pub apath: String,
+    /// "File" | "Dir" | "Symlink"
+    pub kind: String,
+    /// recorded as mtime: tells which band an entry came from
+    pub marker: i64,
+}
+
+#[derive(Clone, Debug, PartialEq, Serialize, Deserialize)]
+pub struct InjBand {
+    pub id: u32,
+    pub head: bool,
+    /// Some(n): a BANDTAIL claiming n hunks
+    pub tail: Option<u64>,
+    /// hunks in order; `None` = that hunk file is missing
+    pub hunks: Vec<Option<Vec<InjEntry>>>,
+}
+
+pub fn inject_bands(w: &World, bands: &[InjBand]) {
+    w.with_store(|m| {
+        for b in bands {
+            let dir = crate::format::band_dir_name(b.id);
+            m.put_dir(&format!("{dir}/i"));
+            if b.head {
+                m.put_file(&format!("{dir}/BANDHEAD"), &br#"{"start_time":1700000000,"band_format_version":"0.6.3"}
+"#[..]);
+            }
+            if let Some(n) = b.tail {
+                m.put_file(&format!("{dir}/BANDTAIL"), format!("{{\"end_time\":1700000001,\"index_hunk_count\":{n}}}\n").into_bytes());
+            }
+            for (i, h) in b.hunks.iter().enumerate() {
+                let Some(entries) = h else { continue };
+                let list: Vec<Value> = entries
+                    .iter()
+                    .map(|e| {
+                        let mut v = serde_json::json!({"apath": e.apath, "kind": e.kind, "mtime": e.marker, "unix_mode": 420});
+                        if e.kind == "Symlink" {
+                            v["target"] = serde_json::json!("t");
+                        }
+                        v
+                    })
+                    .collect();
+                let raw = serde_json::to_vec(&list).unwrap();
+                m.put_file(&crate::format::hunk_path(b.id, i as u32), crate::format::snappy_compress(&raw));
+            }
+        }
+    });
 }
 
 #[derive(Clone, Debug, PartialEq, Serialize, Deserialize)]
@@ -113,6 +165,19 @@ impl Scenario {
                 ),
                 Step::Damage { path, kind, .. } => format!("damage({path},{kind:?})"),
                 Step::EditAlt(es) => format!("edit-alt[{} edits]", es.len()),
+                Step::InjectBands(bs) => format!(
+                    "inject[{}]",
+                    bs.iter()
+                        .map(|b| format!(
+                            "b{:04}:{}{}:hunks={:?}",
+                            b.id,
+                            if b.head { "head" } else { "nohead" },
+                            if b.tail.is_some() { "+tail" } else { "" },
+                            b.hunks.iter().map(|h| h.as_ref().map(|v| v.iter().map(|e| e.apath.clone()).collect::<Vec<_>>())).collect::<Vec<_>>()
+                        ))
+                        .collect::<Vec<_>>()
+                        .join("; ")
+                ),
                 Step::Race { actors, schedule } => format!(
                     "race({}; {})",
                     actors
@@ -213,6 +278,10 @@ pub fn exec_step(w: &mut World, step: &Step, acc: &mut Acc, want_changes: bool) 
             Ok(StepResult::Delete(r))
         }
         Step::Damage { path, kind, arg } => Ok(StepResult::Damaged(apply_damage(w, path, kind, *arg))),
+        Step::InjectBands(bs) => {
+            inject_bands(w, bs);
+            Ok(StepResult::Edited(bs.len()))
+        }
         Step::EditAlt(es) => {
             let rm = w.tree.nodes.get("/").unwrap().meta;
             w.apply_alt_edits(rm, es).map_err(|e| format!("apply_alt_edits: {e}"))?;
